@@ -151,6 +151,19 @@ def bucket_tables(ctx, cr):
                        "a %s rule is listed under %r (expected %r)" % (s_, got, hdr), fn=f, sample={"reporter": "summary_table", "status": s_, "section": got})
         except ai.Undecided as e:
             ctx.ob(rule, rule + ":summary_table", False, "undecided %s" % e, fn=f)
+        # who may remove from the three section maps: only the reviewed SKIP clean-up (a name that also PASSed or FAILed is not listed as
+        # skipped); a PASS or FAIL entry is never removed, so the PASS/FAIL sets of the table equal the compliant/not_compliant sets of
+        # the structured report
+        from rules.c19 import receiver_name
+        removals = []
+        for bi, t in M.iter_calls(f):
+            p = M.norm_path(t["fn"].get("path", ""))
+            if p.split("::")[-1] in ("retain", "remove", "shift_remove", "swap_remove", "clear", "drain", "pop", "truncate") and t["args"]:
+                removals.append((receiver_name(f, t["args"][0]), p.split("::")[-1], t.get("ln")))
+        bad = [r for r in removals if r[0] in ("passed", "failed") or r[0] not in ("skipped",)]
+        ctx.ob(rule, rule + ":summary_table:removals", not bad and len(removals) <= 1,
+               ("entries are removed from %s: a rule that the structured report lists as compliant / non-compliant disappears from the table section" % [(r[0], r[1], "l.%s" % r[2]) for r in bad]) if bad
+               else "only removal: %s" % [(r[0], r[1]) for r in removals], fn=f)
     # 2. console summary: report_from_events -> GenericReporter::report(failed, passed, skipped)
     key = "commands::reporters::validate::common::report_from_events"
     f = cr.fns.get(key)
